@@ -27,6 +27,8 @@ def run_property(prop, tier, replay=None, repo=None, quiet=False, write=True):
         out.append(f"  UNSUPPORTED (declared, not decided): {u}")
     for f in old:
         out.append(f"KNOWN-FINDING: property={prop} rule={f.rule} {f.site} :: {f.construct} -- {f.what}")
+    for f in ctx.undecided_list:
+        out.append(f"  UNDECIDED rule={f.rule} at {f.site}: {f.construct} -- {f.what}")
     replay_dir = os.path.join(VERIF, "evidence", "replay")
     vio_lines = []
     if write and not replay and os.path.isdir(replay_dir):
@@ -77,6 +79,7 @@ def run_property(prop, tier, replay=None, repo=None, quiet=False, write=True):
                 "known_findings_rederived": [f"{f.rule} {f.site.module}::{f.site.qualname} :: {f.construct}" for f in old],
                 "new_findings": [f"{f.rule} {f.site.module}::{f.site.qualname} :: {f.construct}" for f in new],
                 "unsupported_declared": ctx.unsupported,
+                "undecided": [f"{f.rule} {f.site.module}::{f.site.qualname} :: {f.construct}" for f in ctx.undecided_list],
                 "exhaustive": True,
                 "checker_cmd": f"./check {prop} --tier {tier}",
                 "trusted_base": ["CPython ast module", "numpy/CPython semantics encoded in the rules (DESIGN section 1)"],
@@ -93,7 +96,13 @@ def run_property(prop, tier, replay=None, repo=None, quiet=False, write=True):
         print("\n".join(out))
         for l in vio_lines:
             print(l)
-    return (1 if vio_lines else 0), ctx, new, old
+    rc = 1 if vio_lines else 0
+    if not vio_lines and ctx.undecided_list and not replay:
+        if not quiet:
+            print(f"ANALYSIS-ERROR property={prop} {len(ctx.undecided_list)} obligation(s) undecided: the code no longer has a shape the "
+                  f"rules recognise (neither a pass nor a violation)")
+        rc = 2
+    return rc, ctx, new, old
 
 
 def main(argv=None):
